@@ -512,3 +512,53 @@ bool compatibleFT(FunctionType* A, FunctionType* B)
         if (!same(A->getParamType(i), B->getParamType(i))) return false;
     return true;
 }
+
+// Targets of an indirect call.  Virtual calls (callee loaded from slot k of a vtable that was itself loaded from
+// the object) are resolved through the vtables present in the module: only functions stored in slot k of
+// some vtable (address point = element 2 of each vtable array) qualify.  Other indirect calls: every
+// address-taken function of compatible type.
+std::vector<Function*> Ctx::indirectTargets(CallBase* CB)
+{
+    std::vector<Function*> out;
+    FunctionType* FT = CB->getFunctionType();
+    Value* CV = CB->getCalledOperand()->stripPointerCasts();
+    long slot = -1;
+    if (auto* L = dyn_cast<LoadInst>(CV))
+    {
+        Value* P = L->getPointerOperand()->stripPointerCasts();
+        Value* Base = P;
+        long k = 0;
+        if (auto* G = dyn_cast<GetElementPtrInst>(P))
+            if (G->getNumIndices() == 1)
+                if (auto* CI = dyn_cast<ConstantInt>(G->getOperand(1)))
+                {
+                    k = CI->getSExtValue();
+                    Base = G->getPointerOperand()->stripPointerCasts();
+                }
+        if (auto* VL = dyn_cast<LoadInst>(Base))
+            if (VL->getType()->isPointerTy() && VL->getType()->getPointerElementType()->isPointerTy() &&
+                VL->getType()->getPointerElementType()->getPointerElementType()->isFunctionTy())
+                slot = k;
+    }
+    if (slot >= 0)
+    {
+        std::set<Function*> seen;
+        for (GlobalVariable* G : globals)
+        {
+            if (!G->getName().startswith("_ZTV") || !G->hasInitializer()) continue;
+            auto* CS = dyn_cast<ConstantStruct>(G->getInitializer());
+            if (!CS) continue;
+            for (Value* Arr : CS->operands())
+            {
+                auto* CA = dyn_cast<ConstantArray>(Arr);
+                if (!CA || CA->getNumOperands() <= (unsigned) (2 + slot)) continue;
+                auto* F = dyn_cast<Function>(CA->getOperand(2 + slot)->stripPointerCasts());
+                if (F && !F->isDeclaration() && compatibleFT(F->getFunctionType(), FT) && seen.insert(F).second) out.push_back(F);
+            }
+        }
+        return out;
+    }
+    for (Function* H : addrTaken)
+        if (!H->isDeclaration() && compatibleFT(H->getFunctionType(), FT)) out.push_back(H);
+    return out;
+}
